@@ -237,6 +237,94 @@ fn common_classes(h: &History, s: &Summary, st: &mut Stats) {
     st.class_if(s.grew_cross > 0 && s.shrank_cross > 0, "length crossed a word/inline boundary both ways");
 }
 
+/// A small concrete operation alphabet for the exhaustive short-history enumeration: every
+/// operation family once or twice, with arguments placed at the interesting ends.
+fn small_alphabet(with_cap_ops: bool) -> Vec<Op> {
+    let opnd = |t: Tid, n: usize| Operand::canon(t, realize_val(&ValPat::Alt(true), n, 8));
+    let ones = |t: Tid, n: usize| Operand::canon(t, Bits::ones(n));
+    let mut v = vec![
+        Op::Push(true),
+        Op::Pop,
+        Op::Set(65535, true),
+        Op::Grow(3000, true),
+        Op::Grow(65535, false),
+        Op::ShrinkTo(32768),
+        Op::ShrinkTo(0),
+        Op::Truncate(20000),
+        Op::SignExtend(40001),
+        Op::Append(opnd(0, 5)),
+        Op::Append(ones(TID_D, 70)),
+        Op::Prepend(opnd(TID_A, 9)),
+        Op::Prepend(Operand::canon(9, Bits::new())),
+        Op::Insert(32768, ones(5, 3)),
+        Op::Extend(Bits::ones(10), Hint::Partial),
+        Op::SplitOffKeepLow(32768),
+        Op::SplitOffKeepHigh(32768),
+        Op::CopyRange(8000, 60000),
+        Op::ShiftRel { left: true, f: 3000, ty: NatTy::U8, form: ShForm::AssignVal },
+        Op::ShiftRel { left: false, f: 3000, ty: NatTy::U64, form: ShForm::RefVal },
+        Op::Shift { left: true, amt: Nat::new(NatTy::U32, 64), form: ShForm::OwnVal },
+        Op::Shift { left: false, amt: Nat::new(NatTy::Usize, 64), form: ShForm::RefRef },
+        Op::ShiftIn { left: true, bit: true },
+        Op::ShiftIn { left: false, bit: true },
+        Op::Rot { left: true, k: 5000 },
+        Op::Rot { left: false, k: 33000 },
+        Op::Not(true),
+        Op::Not(false),
+        Op::Bin { op: BinOp::Add, form: Form::AssignRef, rhs: Rhs::N(Nat::new(NatTy::U8, 1)) },
+        Op::Bin { op: BinOp::Sub, form: Form::RefRef, rhs: Rhs::V(ones(TID_D, 200)) },
+        Op::Bin { op: BinOp::Mul, form: Form::OwnOwn, rhs: Rhs::V(Operand::canon(13, Bits::from_u128(0xffff_ffff_ffff_fffb, 130))) },
+        Op::Bin { op: BinOp::Or, form: Form::AssignOwn, rhs: Rhs::V(ones(11, 192)) },
+        Op::Bin { op: BinOp::Xor, form: Form::RefOwn, rhs: Rhs::V(ones(TID_A, 140)) },
+        Op::Bin { op: BinOp::And, form: Form::OwnRef, rhs: Rhs::V(opnd(2, 20)) },
+        Op::Bin { op: BinOp::Div, form: Form::RefRef, rhs: Rhs::N(Nat::new(NatTy::U16, 3)) },
+        Op::Bin { op: BinOp::Rem, form: Form::AssignRef, rhs: Rhs::V(Operand::canon(TID_A, Bits::from_u128(7, 150))) },
+        Op::Via(TID_D),
+        Op::Via(13),
+        Op::WriteRead(true),
+        Op::Recollect(Hint::Zero),
+    ];
+    if with_cap_ops {
+        v.extend([Op::Reserve(1), Op::Reserve(64), Op::Reserve(200), Op::ShrinkToFit]);
+    }
+    v
+}
+
+/// All histories of 1, 2 (and, for `three`, 3) operations over the small alphabet from a set of
+/// boundary start lengths.
+fn enumerate_short_histories(sh: &mut Shard, f: &mut dyn FnMut(History) -> bool, types: &[Tid], with_cap_ops: bool, three: bool) {
+    let alpha = small_alphabet(with_cap_ops);
+    for &ty in types {
+        let c = fixed_cap(ty).unwrap_or(usize::MAX);
+        for n0 in [0usize, 1, 7, 8, 9, 15, 16, 17, 63, 64, 65, 127, 128, 129] {
+            if n0 > c {
+                continue;
+            }
+            let init = Init::Built(realize_val(&ValPat::Dense(vec![0xD1B5_4A32_D192_ED03, 0x9E37_79B9_7F4A_7C15, 0x8CB9_2BA7_2F3D_8DD7]), n0, 8), Prov::Canon);
+            for a in &alpha {
+                if !sh.mine() {
+                    continue;
+                }
+                if !f(History { ty, init: init.clone(), ops: vec![a.clone()] }) {
+                    return;
+                }
+                for b in &alpha {
+                    if !f(History { ty, init: init.clone(), ops: vec![a.clone(), b.clone()] }) {
+                        return;
+                    }
+                    if three {
+                        for c3 in &alpha {
+                            if !f(History { ty, init: init.clone(), ops: vec![a.clone(), b.clone(), c3.clone()] }) {
+                                return;
+                            }
+                        }
+                    }
+                }
+            }
+        }
+    }
+}
+
 // ------------------------------------------------------------------------------------------------
 
 pub struct C03;
@@ -253,6 +341,16 @@ impl Property for C03 {
     }
     fn strategy(&self, tier: Tier) -> BoxedStrategy<History> {
         arb_history(Mode::All, tier)
+    }
+    fn exhaustive_subspaces(&self, tier: Tier) -> Vec<String> {
+        vec![format!("all histories of length 1 and 2{} over a 44-operation alphabet (every operation family, capacity operations included) from 14 boundary start lengths {{0,1,7,8,9,15,16,17,63,64,65,127,128,129}} on {}", if tier == Tier::Thorough { " and 3" } else { "" }, if tier == Tier::Thorough { "Bvf<u8,2>, Bvf<u8,17>, Bvf<u64,2>, Bvf<u128,2>, Bvd, Bv" } else { "Bvf<u8,2>, Bvf<u64,2>, Bvf<u8,17>, Bvd, Bv" })]
+    }
+    fn enumerate(&self, tier: Tier, sh: &mut Shard, f: &mut dyn FnMut(History) -> bool) {
+        if tier == Tier::Thorough {
+            enumerate_short_histories(sh, f, &[1, 4, 10, 13, TID_D, TID_A], true, true);
+        } else {
+            enumerate_short_histories(sh, f, &[1, 10, 4, TID_D, TID_A], true, false);
+        }
     }
     fn check(&self, h: &History, st: &mut Stats) -> CheckResult {
         let s = run_history(h, st, Mode::All, &limits_for(h, 14), "C03")?;
